@@ -173,10 +173,10 @@ let run_case (suite : string) (r : rd) : unit =
   | "fracfloat" -> let k = rint r in let n = rz r in pz (frac_float (nat_of_int k) n)
   | "srtread" ->
     let d = rstr r in
-    let res = read_srt d in
+    let res = read_srt_c d in   (* the checked transcription (Model/SrtC.v); equal to read_srt by Proofs/SrtChk.v *)
     if List.for_all html_simple (lines d) then pres (plist psitem) res
     else (Buffer.add_string b "NS "; pres (fun _ -> ()) res)
-  | "srtwrite" -> pres pstr (write_srt (rlist rsitem r))
+  | "srtwrite" -> pres pstr (write_srt_c (rlist rsitem r))
   | "srttext" ->
     let line = rstr r in let a = rsa r in
     let (runs, a') = parse_text_srt line a in
@@ -194,7 +194,7 @@ let run_case (suite : string) (r : rd) : unit =
     (match writer_for name with Ok _ -> pint 0 | _ -> pint 1)
   | "vttreadm" ->
     let d = rstr r in
-    let res = read_vtt d in
+    let res = read_vtt_c d in   (* the checked transcription (Model/VttC.v); equal to read_vtt by Proofs/VttChk.v *)
     if List.for_all vtt_line_simple (lines d) then pres pvdoc res
     else (Buffer.add_string b "NS "; pres (fun _ -> ()) res)
   | "vtttext" ->
@@ -204,7 +204,7 @@ let run_case (suite : string) (r : rd) : unit =
     pint 0; pvline l; plist pvtag tags'
   | "vttwritem" ->
     let d = rvdoc r in
-    pres pstr (write_vtt d (List.map fst d.vd_styles) (List.map fst d.vd_regions))
+    pres pstr (write_vtt_c d (List.map fst d.vd_styles) (List.map fst d.vd_regions))
   | "convsv" ->
     let d = rstr r in
     let res = convert_srt_vtt d in
